@@ -799,4 +799,7 @@ func genC18Wide(g *Gen) {
 
 	// ---- pbcmpl frames in one file through AtToWriter / AtToReader ----
 	genC18Pbcmpl(g)
+
+	// ---- sections of sections ----
+	genC18Nested(g)
 }
